@@ -1,5 +1,6 @@
 import CasbinModel.Lemmas.Links
 import CasbinModel.Props.C03
+import CasbinModel.Lemmas.Store
 /-!
 # C05 — The role graph always reflects the stored grouping rules   (*partial*, see below)
 
@@ -65,6 +66,209 @@ theorem incr_remove_synced (arity : Nat) (ha : arity = 2 ∨ arity = 3) (rm : Ro
   · intro he; simpa using hr.only dd a b he
   · exact hr.keep dd a b
 
+/-! ### Enforcer level: the invariant over API histories (one role definition) -/
+
+/-- the enforcer's graph holds exactly the links implied by the stored rules of its (single) role
+definition, whose rules are long enough -/
+def GSync (e : Enforcer) : Prop :=
+  ∃ d, e.store.g = [d] ∧ (d.arity = 2 ∨ d.arity = 3) ∧ WFRules d.arity d.policy ∧
+    SyncedWith d.arity e.rm d.policy ∧ e.rm.WF
+
+theorem emit_rm_store (x : Enforcer) (ev : Event) : (x.emit ev).rm = x.rm ∧ (x.emit ev).store = x.store ∧
+    (x.emit ev).autoBuild = x.autoBuild := by
+  unfold Enforcer.emit; split <;> exact ⟨rfl, rfl, rfl⟩
+
+theorem find_g_single (s : Store) (d : PolDef) (h : s.g = [d]) (pt : String) :
+    s.find "g" pt = if d.key = pt then some d else none := by
+  unfold Store.find Store.sec
+  simp only [h]
+  by_cases hk : d.key = pt <;> simp [hk]
+
+theorem update_g_single (s : Store) (d : PolDef) (h : s.g = [d]) (f : PolDef → PolDef) :
+    (s.update "g" d.key f).g = [f d] := by
+  unfold Store.update Store.setSec Store.sec updDef
+  simp [h]
+
+theorem update_p_keeps_g (s : Store) (pt : String) (f : PolDef → PolDef) : (s.update "p" pt f).g = s.g := by
+  unfold Store.update Store.setSec
+  simp
+
+/-- the model-side part of `add_policy_internal("g", key, rule)` keeps the invariant: if the rule is new
+its link is added incrementally, if it is already stored nothing changes -/
+theorem gsync_add_g (e : Enforcer) (h : GSync e) (hs : e.autoSave = false) (hb : e.autoBuild = true)
+    (pt : String) (rule : Rule) (hlen : ∀ d, e.store.g = [d] → d.arity ≤ rule.length) :
+    GSync (e.addPolicy "g" pt rule).1 := by
+  obtain ⟨d, hg, ha, hwf, hsync, hw⟩ := h
+  have hl := hlen d hg
+  unfold Enforcer.addPolicy
+  simp only [hs, Bool.false_eq_true, if_false]
+  unfold Store.addPolicy
+  rw [find_g_single e.store d hg pt]
+  by_cases hk : d.key = pt
+  · subst hk
+    simp only [if_true]
+    by_cases hin : rule ∈ d.policy
+    · -- already stored: no change, no link update
+      have hadd : OrdSet.add d.policy rule = (d.policy, false) := by simp [OrdSet.add, hin]
+      simp only [hadd, Bool.false_and, Bool.false_eq_true, if_false]
+      unfold Enforcer.linkUpdate
+      simp only [Bool.not_false, Bool.true_or, if_true]
+      refine ⟨d, ?_, ha, hwf, hsync, hw⟩
+      rw [update_g_single e.store d hg]
+      simp only [hadd]
+    · have hadd : OrdSet.add d.policy rule = (d.policy ++ [rule], true) := by simp [OrdSet.add, hin]
+      simp only [hadd, Bool.true_and]
+      -- the event (if any) does not touch graph, store or the auto-build switch
+      have key : ∀ (x : Enforcer), x.rm = e.rm → x.autoBuild = true →
+          x.store.g = [{ d with policy := d.policy ++ [rule] }] →
+          GSync (x.linkUpdate true "g" d.key true [rule] (.bool true)).1 := by
+        intro x hrm hab hxg
+        unfold Enforcer.linkUpdate
+        simp only [Bool.not_true, Bool.false_or, ne_eq, not_true_eq_false, decide_false, hab, Bool.false_eq_true, if_false]
+        rw [find_g_single x.store _ hxg d.key]
+        simp only [if_true]
+        obtain ⟨rm', h1, h2, h3⟩ := incr_add_synced d.arity ha x.rm { d with policy := d.policy ++ [rule] } rfl
+          d.policy [rule] (by intro r hr; simp at hr; subst hr; exact hl) (hrm ▸ hsync) (hrm ▸ hw)
+        rw [h1]
+        refine ⟨{ d with policy := d.policy ++ [rule] }, hxg, ha, ?_, h2, h3⟩
+        intro r hr
+        rcases List.mem_append.mp hr with h | h
+        · exact hwf r h
+        · simp at h; subst h; exact hl
+      have hg' : (e.store.update "g" d.key (fun d => { d with policy := (OrdSet.add d.policy rule).1 })).g =
+          [{ d with policy := d.policy ++ [rule] }] := by
+        rw [update_g_single e.store d hg]; simp only [hadd]
+      split
+      · apply key
+        · exact (emit_rm_store _ _).1
+        · rw [(emit_rm_store _ _).2.2]; exact hb
+        · rw [(emit_rm_store _ _).2.1]; exact hg'
+      · exact key _ rfl hb hg'
+  · -- unknown policy type: nothing stored, nothing linked
+    simp only [hk, if_false, Bool.false_and, Bool.false_eq_true]
+    unfold Enforcer.linkUpdate
+    simp only [Bool.not_false, Bool.true_or, if_true]
+    exact ⟨d, hg, ha, hwf, hsync, hw⟩
+
+/-- permission rules never touch the graph -/
+theorem gsync_add_p (e : Enforcer) (h : GSync e) (hs : e.autoSave = false) (pt : String) (rule : Rule) :
+    GSync (e.addPolicy "p" pt rule).1 := by
+  obtain ⟨d, hg, ha, hwf, hsync, hw⟩ := h
+  unfold Enforcer.addPolicy
+  simp only [hs, Bool.false_eq_true, if_false]
+  have hlu : ∀ (x : Enforcer) (c : Bool) (ret : Res), (x.linkUpdate c "p" pt true [rule] ret).1 = x := by
+    intro x c ret
+    unfold Enforcer.linkUpdate
+    simp
+  rw [hlu]
+  have hgs : (e.store.addPolicy "p" pt rule).1.g = e.store.g := by
+    unfold Store.addPolicy
+    cases e.store.find "p" pt with
+    | none => rfl
+    | some _ => exact update_p_keeps_g _ _ _
+  split
+  · refine ⟨d, ?_, ha, hwf, ?_, ?_⟩
+    · rw [(emit_rm_store _ _).2.1]; simpa [hgs] using hg
+    · rw [(emit_rm_store _ _).1]; exact hsync
+    · rw [(emit_rm_store _ _).1]; exact hw
+  · exact ⟨d, by simpa [hgs] using hg, ha, hwf, hsync, hw⟩
+
+theorem synced_congr {arity : Nat} {rm : RoleMgr String} {l1 l2 : List Rule} (hm : ∀ r, r ∈ l1 ↔ r ∈ l2)
+    (h : SyncedWith arity rm l1) : SyncedWith arity rm l2 := by
+  intro dd a b
+  rw [h dd a b]
+  unfold Implied
+  constructor
+  · rintro ⟨hne, r, hr, hl⟩; exact ⟨hne, r, (hm r).mp hr, hl⟩
+  · rintro ⟨hne, r, hr, hl⟩; exact ⟨hne, r, (hm r).mpr hr, hl⟩
+
+/-- the model-side part of `remove_policy_internal("g", key, rule)` keeps the invariant — also when another
+stored rule still implies the same link, and for self-link rules -/
+theorem gsync_remove_g (e : Enforcer) (h : GSync e) (hs : e.autoSave = false) (hb : e.autoBuild = true)
+    (pt : String) (rule : Rule) :
+    GSync (e.removePolicy "g" pt rule).1 := by
+  obtain ⟨d, hg, ha, hwf, hsync, hw⟩ := h
+  unfold Enforcer.removePolicy
+  simp only [hs, Bool.false_eq_true, if_false]
+  unfold Store.removePolicy
+  rw [find_g_single e.store d hg pt]
+  by_cases hk : d.key = pt
+  · subst hk
+    simp only [if_true]
+    by_cases hin : rule ∈ d.policy
+    · have hrm : OrdSet.remove d.policy rule = (d.policy.erase rule, true) := by
+        simp [OrdSet.remove, hin]
+        first | rfl | exact (erase_inst_irrel _ _) | exact (erase_inst_irrel _ _).symm
+      simp only [hrm, Bool.true_and]
+      have hl : d.arity ≤ rule.length := hwf rule hin
+      have key : ∀ (x : Enforcer), x.rm = e.rm → x.autoBuild = true →
+          x.store.g = [{ d with policy := d.policy.erase rule }] →
+          GSync (x.linkUpdate true "g" d.key false [rule] (.bool true)).1 := by
+        intro x hrm' hab hxg
+        unfold Enforcer.linkUpdate
+        simp only [Bool.not_true, Bool.false_or, ne_eq, not_true_eq_false, decide_false, hab, Bool.false_eq_true, if_false]
+        rw [find_g_single x.store _ hxg d.key]
+        simp only [if_true]
+        have hwf' : WFRules d.arity (d.policy.erase rule) := fun r hr => hwf r (List.mem_of_mem_erase hr)
+        have hmem : ∀ r, r ∈ d.policy ↔ r ∈ d.policy.erase rule ++ [rule] := by
+          intro r
+          simp only [List.mem_append, List.mem_singleton]
+          constructor
+          · intro hr
+            by_cases hrr : r = rule
+            · exact Or.inr hrr
+            · exact Or.inl ((List.mem_erase_of_ne hrr).mpr hr)
+          · rintro (hr | hr)
+            · exact List.mem_of_mem_erase hr
+            · subst hr; exact hin
+        obtain ⟨rm', h1, h2, h3⟩ := incr_remove_synced d.arity ha x.rm { d with policy := d.policy.erase rule } rfl
+          [rule] hwf' (by intro r hr; simp at hr; subst hr; exact hl)
+          (hrm' ▸ synced_congr hmem hsync) (hrm' ▸ hw)
+        rw [h1]
+        exact ⟨{ d with policy := d.policy.erase rule }, hxg, ha, hwf', h2, h3⟩
+      have hg' : (e.store.update "g" d.key (fun d => { d with policy := (OrdSet.remove d.policy rule).1 })).g =
+          [{ d with policy := d.policy.erase rule }] := by
+        rw [update_g_single e.store d hg]; simp only [hrm]
+      split
+      · apply key
+        · exact (emit_rm_store _ _).1
+        · rw [(emit_rm_store _ _).2.2]; exact hb
+        · rw [(emit_rm_store _ _).2.1]; exact hg'
+      · exact key _ rfl hb hg'
+    · have hrm : OrdSet.remove d.policy rule = (d.policy, false) := by simp [OrdSet.remove, hin]
+      simp only [hrm, Bool.false_and, Bool.false_eq_true, if_false]
+      unfold Enforcer.linkUpdate
+      simp only [Bool.not_false, Bool.true_or, if_true]
+      refine ⟨d, ?_, ha, hwf, hsync, hw⟩
+      rw [update_g_single e.store d hg]
+      simp only [hrm]
+  · simp only [hk, if_false, Bool.false_and, Bool.false_eq_true]
+    unfold Enforcer.linkUpdate
+    simp only [Bool.not_false, Bool.true_or, if_true]
+    exact ⟨d, hg, ha, hwf, hsync, hw⟩
+
+theorem gsync_remove_p (e : Enforcer) (h : GSync e) (hs : e.autoSave = false) (pt : String) (rule : Rule) :
+    GSync (e.removePolicy "p" pt rule).1 := by
+  obtain ⟨d, hg, ha, hwf, hsync, hw⟩ := h
+  unfold Enforcer.removePolicy
+  simp only [hs, Bool.false_eq_true, if_false]
+  have hlu : ∀ (x : Enforcer) (c : Bool) (ret : Res), (x.linkUpdate c "p" pt false [rule] ret).1 = x := by
+    intro x c ret
+    unfold Enforcer.linkUpdate
+    simp
+  rw [hlu]
+  have hgs : (e.store.removePolicy "p" pt rule).1.g = e.store.g := by
+    unfold Store.removePolicy
+    cases e.store.find "p" pt with
+    | none => rfl
+    | some _ => exact update_p_keeps_g _ _ _
+  split
+  · refine ⟨d, ?_, ha, hwf, ?_, ?_⟩
+    · rw [(emit_rm_store _ _).2.1]; simpa [hgs] using hg
+    · rw [(emit_rm_store _ _).1]; exact hsync
+    · rw [(emit_rm_store _ _).1]; exact hw
+  · exact ⟨d, by simpa [hgs] using hg, ha, hwf, hsync, hw⟩
+
 /-- hierarchies below the depth limit: every reachable pair is reachable by a short chain -/
 def Shallow (g : Graph String) (n : Nat) : Prop := ∀ a b, Reach g a b → ∃ L, L < n ∧ Path g a b L
 
@@ -110,6 +314,100 @@ theorem synced_same_links (arity : Nat) (rm1 rm2 : RoleMgr String) (rules : List
     (x, y) ∈ (rm1.graph d).edges ↔ (x, y) ∈ (rm2.graph d).edges := by
   rw [h1 d x y, h2 d x y]
 
+/-! ### Every history of single additions / removals, and what an explicit rebuild then does -/
+
+/-- single management calls, on permission rules and on grouping rules -/
+inductive GOp where
+  | add (sec pt : String) (rule : Rule)
+  | remove (sec pt : String) (rule : Rule)
+
+def GOp.apply (e : Enforcer) : GOp → Enforcer
+  | .add sec pt rule => (e.addPolicy sec pt rule).1
+  | .remove sec pt rule => (e.removePolicy sec pt rule).1
+
+/-- the calls the invariant is stated for: section `p` or `g`, and a grouping rule handed to `add` has
+at least as many fields as the role definition -/
+def GOp.Ok (e : Enforcer) : GOp → Prop
+  | .add sec _ rule => sec = "p" ∨ (sec = "g" ∧ ∀ d, e.store.g = [d] → d.arity ≤ rule.length)
+  | .remove sec _ _ => sec = "p" ∨ sec = "g"
+
+theorem flags_add (e : Enforcer) (sec pt : String) (rule : Rule) (hs : e.autoSave = false) :
+    (e.addPolicy sec pt rule).1.autoSave = false ∧ (e.addPolicy sec pt rule).1.autoBuild = e.autoBuild := by
+  unfold Enforcer.addPolicy
+  simp only [hs, Bool.false_eq_true, if_false]
+  have hlu : ∀ (x : Enforcer) (c : Bool) (ret : Res), (x.linkUpdate c sec pt true [rule] ret).1.autoSave = x.autoSave ∧
+      (x.linkUpdate c sec pt true [rule] ret).1.autoBuild = x.autoBuild := by
+    intro x c ret
+    unfold Enforcer.linkUpdate
+    split
+    · exact ⟨rfl, rfl⟩
+    · split
+      · exact ⟨rfl, rfl⟩
+      · split <;> exact ⟨rfl, rfl⟩
+  rw [(hlu _ _ _).1, (hlu _ _ _).2]
+  split <;> simp [Enforcer.emit, hs] <;> split <;> simp [hs]
+
+theorem flags_remove (e : Enforcer) (sec pt : String) (rule : Rule) (hs : e.autoSave = false) :
+    (e.removePolicy sec pt rule).1.autoSave = false ∧ (e.removePolicy sec pt rule).1.autoBuild = e.autoBuild := by
+  unfold Enforcer.removePolicy
+  simp only [hs, Bool.false_eq_true, if_false]
+  have hlu : ∀ (x : Enforcer) (c : Bool) (ret : Res), (x.linkUpdate c sec pt false [rule] ret).1.autoSave = x.autoSave ∧
+      (x.linkUpdate c sec pt false [rule] ret).1.autoBuild = x.autoBuild := by
+    intro x c ret
+    unfold Enforcer.linkUpdate
+    split
+    · exact ⟨rfl, rfl⟩
+    · split
+      · exact ⟨rfl, rfl⟩
+      · split <;> exact ⟨rfl, rfl⟩
+  rw [(hlu _ _ _).1, (hlu _ _ _).2]
+  split <;> simp [Enforcer.emit, hs] <;> split <;> simp [hs]
+
+/-- **the graph reflects the stored grouping rules after every history** of single additions and removals
+(auto-build on; the adapter not involved: auto-save off — with auto-save on an accepted call runs the same
+model-side code and a vetoed one changes nothing, see C10) -/
+theorem gsync_history (ops : List GOp) (e : Enforcer) (h : GSync e) (hs : e.autoSave = false) (hb : e.autoBuild = true)
+    (hok : ∀ (pre : List GOp) (op : GOp) (post : List GOp), ops = pre ++ op :: post → op.Ok (pre.foldl GOp.apply e)) :
+    GSync (ops.foldl GOp.apply e) := by
+  induction ops generalizing e with
+  | nil => exact h
+  | cons op ops ih =>
+    have hop := hok [] op ops rfl
+    simp only [List.foldl_nil] at hop
+    simp only [List.foldl_cons]
+    have hnext : ∀ (pre : List GOp) (op' : GOp) (post : List GOp), ops = pre ++ op' :: post →
+        op'.Ok (pre.foldl GOp.apply (GOp.apply e op)) := by
+      intro pre op' post heq
+      have := hok (op :: pre) op' post (by rw [heq]; rfl)
+      simpa using this
+    cases op with
+    | add sec pt rule =>
+      obtain ⟨f1, f2⟩ := flags_add e sec pt rule hs
+      apply ih _ _ f1 (by rw [f2]; exact hb) hnext
+      rcases hop with h1 | ⟨h1, h2⟩
+      · subst h1; exact gsync_add_p e h hs pt rule
+      · subst h1; exact gsync_add_g e h hs hb pt rule h2
+    | remove sec pt rule =>
+      obtain ⟨f1, f2⟩ := flags_remove e sec pt rule hs
+      apply ih _ _ f1 (by rw [f2]; exact hb) hnext
+      rcases hop with h1 | h1
+      · subst h1; exact gsync_remove_p e h hs pt rule
+      · subst h1; exact gsync_remove_g e h hs hb pt rule
+
+/-- … hence an explicit `build_role_links` at any point of such a history succeeds and leaves every link
+where it was: same edges in every domain (so, by `same_links_same_answers`, the same answers to every
+role query and `g` test while hierarchies stay below the depth limit) -/
+theorem rebuild_after_history (e : Enforcer) (h : GSync e) :
+    ∃ e', e.buildRoleLinks = (e', none) ∧ GSync e' ∧
+      ∀ dd x y, (x, y) ∈ (e'.rm.graph dd).edges ↔ (x, y) ∈ (e.rm.graph dd).edges := by
+  obtain ⟨d, hg, ha, hwf, hsync, hw⟩ := h
+  obtain ⟨rm', h1, h2, h3⟩ := rebuild_synced d.arity ha e.rm d rfl hwf
+  refine ⟨{ e with rm := rm' }, ?_, ⟨d, hg, ha, hwf, h2, h3⟩, ?_⟩
+  · unfold Enforcer.buildRoleLinks
+    rw [hg, h1]
+  · intro dd x y
+    exact synced_same_links d.arity rm' e.rm d.policy h2 hsync dd x y
+
 /-! ### Non-vacuity: two rules implying one link; removing one keeps it (regression for F14) -/
 
 def demoDef (pol : List Rule) : PolDef := { key := "g", tokens := [], arity := 2, policy := pol }
@@ -126,5 +424,33 @@ example :
 example :
     let rm := (buildRoleLinks (RoleMgr.new 10) [demoDef [["a", "a"], ["a", "b"]]]).1
     (buildIncremental rm (demoDef []) false [["a", "a"], ["a", "b"]]).2 = none := by decide +kernel
+
+/-- non-vacuity of the enforcer-level invariant: a fresh RBAC enforcer satisfies it, and a three-call history
+(add a link, add a second rule implying it, remove the first) meets the side conditions -/
+def demoEnf : Enforcer :=
+  { defs := ⟨[], [], []⟩, store := ⟨[{ key := "p", tokens := [], arity := 0, policy := [] }], [demoDef []]⟩,
+    adapter := AdapterSt.mk0 .null, rm := (RoleMgr.new 10).clear, enabled := true, autoSave := false, autoBuild := true,
+    autoNotify := false, callbacks := 0, hasWatcher := false, gfuncs := [], userFns := [], log := [] }
+
+theorem demo_gsync : GSync demoEnf := by
+  refine ⟨demoDef [], rfl, Or.inl rfl, ?_, synced_clear 2 _, WF_clear _⟩
+  intro r hr; cases hr
+
+example : GSync ([GOp.add "g" "g" ["alice", "admin"], .add "g" "g" ["alice", "admin", "x"], .remove "g" "g" ["alice", "admin"],
+    .add "p" "p" ["admin", "d", "read"]].foldl GOp.apply demoEnf) := by
+  apply gsync_history _ _ demo_gsync rfl rfl
+  intro pre op post heq
+  -- the four prefixes
+  rcases pre with _ | ⟨a, _ | ⟨b, _ | ⟨c, _ | ⟨d', pre⟩⟩⟩⟩ <;> simp at heq
+  · obtain ⟨rfl, _⟩ := heq; exact Or.inr ⟨rfl, by intro d hd; simp [demoEnf] at hd; subst hd; decide⟩
+  · obtain ⟨rfl, rfl, _⟩ := heq
+    refine Or.inr ⟨rfl, ?_⟩
+    intro d hd
+    have : (GOp.apply demoEnf (GOp.add "g" "g" ["alice", "admin"])).store.g = [demoDef [["alice", "admin"]]] := by decide +kernel
+    simp only [List.foldl_cons, List.foldl_nil] at hd
+    rw [this] at hd
+    simp at hd; subst hd; decide
+  · obtain ⟨rfl, rfl, rfl, _⟩ := heq; exact Or.inr rfl
+  · obtain ⟨rfl, rfl, rfl, rfl, _⟩ := heq; exact Or.inl rfl
 
 end Casbin.C05
